@@ -51,6 +51,10 @@ structure Hash where
 def bestChecksums (sha256 sha512 : List Hash) : List Hash :=
   if sha256.length > 0 then sha256 else if sha512.length > 0 then sha512 else []
 
+/-- `FileHash.ByHashPath(path)`: the by-hash location next to an index file -/
+def byHashPath (path byHash hash : Bytes) : Bytes :=
+  Path.dir path ++ Bytes.ofString "/by-hash/" ++ byHash ++ [47] ++ hash
+
 /-- `getOptionalDependencyField`: the field parsed as a relationship field; an absent field
     is the empty text; a malformed one gives the empty dependency -/
 def optionalDependency (p : Deb822.Paragraph) (field : Bytes) : Dep.Dependency :=
